@@ -464,6 +464,8 @@ func anywhere(r rune, p *Parser) stateFn {
 		}
 		p.clear()
 		p.escTimeout = time.AfterFunc(10*time.Millisecond, func() {
+			verifEscTimer(0)
+			defer verifEscTimer(1)
 			p.emit(C0(0x1B))
 			p.mu.Lock()
 			p.state = ground
